@@ -36,7 +36,7 @@ def x_defs(e):
 class Mat:
     """A materialised scenario."""
 
-    def __init__(self, scen, base, seed=0, alias=None, ext_c=".c", plain=False, ext_of=None, dotted=False, crlf=()):
+    def __init__(self, scen, base, seed=0, alias=None, ext_c=".c", plain=False, ext_of=None, dotted=False, crlf=(), spill=False):
         self.scen = scen
         self.base = base                      # temp dir
         self.root = os.path.join(base, "root")
@@ -72,7 +72,7 @@ class Mat:
                 # a file that gets a Fortran extension is written as Fortran (same items, same line structure)
                 is_f = bool(ext_of and ext_of.get(fid, "").lower() in (".f90", ".f"))
                 text, lines_of = render.render_c(f["items"], seed=rnd.random(), uid="v" + "".join(c for c in fid if c.isalnum()),
-                                                 plain=plain, xstr=xstr and not is_f, dotted=dotted, fortran=is_f)
+                                                 plain=plain, xstr=xstr and not is_f, dotted=dotted, fortran=is_f, spill=spill)
             if f.get("copyof") and random.Random(f"{seed}-hardlink").random() < 0.5:
                 # the copy is a second directory entry of the same inode (cp -l): still an ordinary file
                 os.link(self.paths[f["copyof"]], path)
